@@ -22,6 +22,8 @@ NAMING = {
     "default": (None, None, "{p}{scope}{name}{suffix}"),
     "custom": ("ZZ_", "{C_prefix}x_{C_name_scope}{underscore_name}{function_suffix}{template_suffix}", "{p}x_{scope}{name}{suffix}"),
 }
+# scenario only (the atom libraries have no scopes): option C_API_case "controls the case of C_name_scope"
+SCOPE_CASES = {"upper": str.upper, "lower": str.lower}
 
 
 def namer_for(libname, naming, scope=""):
@@ -268,6 +270,10 @@ def scenario_case(args):
     import yaml
 
     y = yaml.safe_load(SCEN_YAML)
+    case = SCOPE_CASES.get(naming)
+    if case:
+        y["options"]["C_API_case"] = naming
+        naming = "default"
     pfx, tmpl, _ = NAMING[naming]
     if tmpl:
         y["options"]["C_name_template"] = tmpl
@@ -282,10 +288,13 @@ def scenario_case(args):
     open(os.path.join(out, "cee.hpp"), "w").write(SCEN_HPP)
     open(os.path.join(out, "subject.cpp"), "w").write(SCEN_CPP)
     P, N = namer_for("Cee", naming)
-    _, NC = namer_for("Cee", naming, "Cls_")
-    _, NN = namer_for("Cee", naming, "ns_")
-    _, NI = namer_for("Cee", naming, "ns_inner_")
-    T = P + "Cls"
+    cs = case or (lambda x: x)
+    _, NC = namer_for("Cee", naming, cs("Cls_"))
+    _, NN = namer_for("Cee", naming, cs("ns_"))
+    _, NI = namer_for("Cee", naming, cs("ns_inner_"))
+    T = P + cs("Cls")
+    if case:
+        naming = args[1]
     d = {"T": T, "P": P, "ctor": NC("ctor", ""), "dtor": NC("dtor", ""), "id": NC("id", ""), "add": NC("add", ""), "twice": NC("twice", ""),
          "rename": NC("rename", ""), "name": NC("name", ""), "whichc": NC("which", "_const"), "whichm": NC("which", "_mutable"), "takes": N("takes", ""), "find": N("findCls", ""), "new": N("newCls", ""), "ref": N("refCls", ""), "cref": N("crefCls", ""),
          "val": N("valCls", ""), "next": N("nextColor", ""), "level": N("levelValue", ""), "over0": N("over", "_0"), "over1": N("over", "_1"), "pick0": N("pick", ""), "pick1": N("pick", "_both"), "dflt0": N("dflt", "_0"),
@@ -471,8 +480,9 @@ def run(ctx):
                                   {"kind": "not-callable", "decl": decl, "naming": job[3]})
                 continue
             ctx.violation("%s %s [naming %s]" % (kind, decl, job[3]), msg, {"kind": kind, "decl": decl, "naming": job[3]})
-    sres = isolate.pmap(scenario_case, [(os.path.join(wd, "s-" + n), n) for n in NAMING], W)
-    for (errs, n), naming in zip(sres, NAMING):
+    snames = list(NAMING) + list(SCOPE_CASES)
+    sres = isolate.pmap(scenario_case, [(os.path.join(wd, "s-" + n), n) for n in snames], W)
+    for (errs, n), naming in zip(sres, snames):
         calls += n
         for kind, what, msg in errs:
             ctx.violation("%s %s [naming %s]" % (kind, what, naming), msg, {"kind": kind, "scenario": True, "naming": naming})
